@@ -707,6 +707,7 @@ class Interp:
             self.rebind(base, new, st)
             return
         self.event("mutate", stmt, st, how="setitem", target=base, index=idx, value=v, targetsrc=ast.unparse(target.value))
+        self._float_index_hazard(idx, st, stmt)
         if base.kind == "arr" and isinstance(base.extra, tuple) and base.extra and base.extra[0] == "dyn" and v.kind in ("arr", "float"):
             # the buffer was allocated with the dtype of caller data: anything but values of that very array
             # (selections of it) is converted on assignment - an integer input truncates a computed float
@@ -735,6 +736,21 @@ class Interp:
         blk = self._block_store(base, idx, v)
         new = base.replace(term=blk if blk is not None else T("store", base.term, idx.term, v.term), labels=base.labels | v.labels | idx.labels, has_const=False, const_=None, items=None)
         self.rebind(base, new, st)
+
+    def _float_index_hazard(self, idx, st, node):
+        """an index that may be the float64 empty array np.array([]) (one arm of a branch) raises IndexError
+        unless the access is guarded by a test of its length / size"""
+        alts, seen = [idx], []
+        while alts:
+            a_ = alts.pop()
+            seen.append(a_)
+            if isinstance(a_.extra, tuple) and len(a_.extra) == 4 and a_.extra[0] == "phi":
+                alts.extend([a_.extra[2], a_.extra[3]])
+        if not any(x_.extra == "float-empty" for x_ in seen):
+            return
+        guarded = any(isinstance(c_, Term) and any(isinstance(y_, Term) and y_.op in ("len", "size") and y_.args and y_.args[0] == idx.term for y_ in c_.walk()) for c_, _pol in st.pc)
+        if not guarded:
+            self.event("shape-conflict", node, st, what="an index that may be the float64 empty array np.array([]) is used without a length guard (IndexError: arrays used as indices must be of integer type)", a=repr(idx.term)[:80], b="float index")
 
     def _block_store(self, base, idx, v):
         """Z = zeros(shape); Z[:k] = A  /  Z[:, :k] = A   is the concatenation [A, 0]"""
